@@ -154,6 +154,7 @@ METADATA = [
     {"nested": {"x": [1, 2, {"y": None}], "s": "téxt"}, "f": 1.5, "b": True},
     {"list": [1, "two", 3.0, False, None]},
     {"k" * 20: "v" * 200},
+    [], [1, {"a": None}], 0, False, "", "free text", 3.5,
 ]
 ASSEMBLIES = [None, None, "hg19", "mm10", "dm6 (custom)", ""]
 
@@ -250,7 +251,9 @@ def gen_unordered(rng, layout=None, maxpx=40, symmetric=None, colspec=None, maxc
     max_merge = rng.choice([1, 2, 3, 4, 200, 200])
     return {
         "op": "create",
-        "unordered": {"mergebuf": mergebuf, "max_merge": max_merge, "ensure_sorted": ensure_sorted},
+        "unordered": {"mergebuf": mergebuf, "max_merge": max_merge, "ensure_sorted": ensure_sorted,
+                      "delete_temp": rng.random() >= 0.15},
+        "id_dtype": rng.choice(["int64", "int64", "int32"]),
         "layout": layout,
         "symmetric": symmetric,
         "dtypes": colspec,
@@ -266,7 +269,7 @@ def gen_unordered(rng, layout=None, maxpx=40, symmetric=None, colspec=None, maxc
 
 
 # ---------------------------------------------------------------------- faults
-F1_KINDS = ("oob", "neg", "tril", "dup")
+F1_KINDS = ("oob", "neg", "tril", "dup", "neg2", "oob1")
 
 
 def f1_placements(op):
